@@ -211,6 +211,20 @@ func (w *walker) enums() {
 			back = ttlv.Value{}
 			err = ttlv.UnmarshalJSON(j, &back)
 			w.check(err == nil && back.Value == ttlv.Enum(v), sig+":json-read", fmt.Sprintf("JSON %s read back as %v (err %v), want %X", n, back.Value, err, v), string(j))
+			// the same generic value carried under ANOTHER element (the value of a custom attribute, where an enumeration
+			// has no name scope of its own): whatever is written there must be read back as the same number
+			for _, f := range []struct {
+				name string
+				m    func(any) []byte
+				u    func([]byte, any) error
+			}{{"xml", ttlv.MarshalXML, ttlv.UnmarshalXML}, {"json", ttlv.MarshalJSON, ttlv.UnmarshalJSON}} {
+				at := kmip.Attribute{AttributeName: "x-vendor-enum", AttributeValue: val}
+				doc := f.m(&at)
+				var ab kmip.Attribute
+				err := f.u(doc, &ab)
+				bv, _ := ab.AttributeValue.(ttlv.Value)
+				w.check(err == nil && bv.Value == ttlv.Enum(v), sig+":"+f.name+"-under-another-element", fmt.Sprintf("%s.%s (%X) carried as the value of a custom attribute is read back as %v (err %v)", e.Name, n, v, bv.Value, err), string(doc))
+			}
 			if hasTyped {
 				s, err := et.MarshalText(v)
 				w.check(err == nil && s == n, sig+":text-write", fmt.Sprintf("MarshalText(%s(%X))=%q,%v want %q", e.Name, v, s, err, n), nil)
@@ -330,7 +344,7 @@ func maskTypes() []maskType {
 			},
 			func(v int32) (string, error) { b, err := kmip.CryptographicUsageMask(v).MarshalText(); return string(b), err },
 			func(s string) (int32, error) {
-				var m kmip.CryptographicUsageMask
+				m := kmip.CryptographicUsageMask(0x55555555) // the destination is not always a fresh variable
 				err := m.UnmarshalText([]byte(s))
 				return int32(m), err
 			}},
@@ -343,7 +357,7 @@ func maskTypes() []maskType {
 			},
 			func(v int32) (string, error) { b, err := kmip.StorageStatusMask(v).MarshalText(); return string(b), err },
 			func(s string) (int32, error) {
-				var m kmip.StorageStatusMask
+				m := kmip.StorageStatusMask(-1)
 				err := m.UnmarshalText([]byte(s))
 				return int32(m), err
 			}},
